@@ -611,3 +611,47 @@ pub fn corruptions(root: &P, other_variant: bool, schema: &Schema) -> Vec<Corrup
     walk(root, &mut Vec::new(), false, false, &base, other_variant, schema, &mut out);
     out
 }
+
+/// Sentinel string that the harness's stand-in for an *extern* enum refuses to deserialize (see
+/// `e1.rs`): a generated enum takes it as `Other`, the user's own type rejects it.
+pub const EXTERN_ENUM_SENTINEL: &str = "__VERIF_EXTERN_REJECT__";
+
+/// For every enum leaf of the payload whose value belongs to exactly one enum of the schema: the
+/// payload with that leaf replaced by `EXTERN_ENUM_SENTINEL`, and the enum's GraphQL name.
+pub fn enum_leaf_sentinels(root: &P, schema: &Schema) -> Vec<(String, Value)> {
+    let base = payload(root);
+    let mut out = Vec::new();
+    fn walk(p: &P, path: &mut Vec<PathSeg>, base: &Value, schema: &Schema, out: &mut Vec<(String, Value)>) {
+        match &p.kind {
+            PKind::Null => {}
+            PKind::Leaf(LeafKind::Enum, v) => {
+                if let Some(s) = v.as_str() {
+                    let owners: Vec<&str> = schema.enums.iter().filter(|e| e.values.iter().any(|x| x == s)).map(|e| e.name.as_str()).collect();
+                    if owners.len() == 1 {
+                        out.push((owners[0].to_string(), replaced(base, path, json!(EXTERN_ENUM_SENTINEL))));
+                    }
+                }
+            }
+            PKind::Leaf(..) => {}
+            PKind::List(items) => {
+                for (i, it) in items.iter().enumerate() {
+                    path.push(PathSeg::Idx(i));
+                    walk(it, path, base, schema, out);
+                    path.pop();
+                }
+            }
+            PKind::Object { fields, .. } => {
+                for f in fields {
+                    if f.is_typename {
+                        continue;
+                    }
+                    path.push(PathSeg::Key(f.key.clone()));
+                    walk(&f.p, path, base, schema, out);
+                    path.pop();
+                }
+            }
+        }
+    }
+    walk(root, &mut Vec::new(), &base, schema, &mut out);
+    out
+}
